@@ -5,6 +5,8 @@ import argparse, concurrent.futures as cf, glob, json, os, subprocess, sys
 VERIF = os.path.dirname(os.path.dirname(os.path.abspath(__file__)))
 ap = argparse.ArgumentParser(); ap.add_argument("ids", nargs="*"); ap.add_argument("--jobs", type=int, default=3)
 ap.add_argument("--tests", action="store_true")
+ap.add_argument("--new", action="store_true", help="only seeds without an entry in seeded/results.jsonl")
+ap.add_argument("--missed", action="store_true", help="only seeds whose latest entry is not caught_with_input")
 a = ap.parse_args()
 man = json.load(open(os.path.join(VERIF, "MANIFEST.json")))
 ready = {c["property_id"] for c in man["checks"]}
@@ -14,6 +16,18 @@ for d in sorted(glob.glob(os.path.join(VERIF, "seeded", "pending", "C*-*")) + gl
     pid = json.load(open(os.path.join(d, "meta.json")))["property"]
     if pid in ids:
         dirs.append(d)
+latest = {}
+rp = os.path.join(VERIF, "seeded", "results.jsonl")
+if os.path.exists(rp):
+    for l in open(rp):
+        try:
+            o = json.loads(l); latest[os.path.basename(o.get("dir", ""))] = o
+        except Exception:
+            pass
+if a.new:
+    dirs = [d for d in dirs if os.path.basename(d) not in latest]
+if a.missed:
+    dirs = [d for d in dirs if os.path.basename(d) in latest and not latest[os.path.basename(d)].get("caught_with_input")]
 def run(d):
     cmd = ["/venv/bin/python", os.path.join(VERIF, "tools", "seedcheck.py"), d] + (["--tests"] if a.tests else [])
     p = subprocess.run(cmd, stdout=subprocess.PIPE, stderr=subprocess.STDOUT, text=True)
